@@ -34,6 +34,9 @@ type Manifest struct {
 	// Overlays adds further files to other packages of the repository (stand-ins that need access
 	// to unexported state): repo-relative target path -> source relative to the manifest
 	Overlays map[string]string `json:"overlays"`
+	// Tags: build tags for loading the code (e.g. "noasm" selects the pure Go variants of third-party
+	// kernels that otherwise come as assembly); native replays are run with the same tags
+	Tags string `json:"tags"`
 	Harnesses []HarnessCfg `json:"harnesses"`
 }
 
@@ -282,6 +285,9 @@ func load(repo string, m *Manifest, mdir string) (*ssa.Program, *ssa.Package, er
 		Dir:     repo,
 		Overlay: overlay,
 		Env:     append(os.Environ(), "GOFLAGS=-mod=mod", "GOPROXY=off", "GOSUMDB=off", "GOTOOLCHAIN=local"),
+	}
+	if m.Tags != "" {
+		cfg.BuildFlags = []string{"-tags=" + m.Tags}
 	}
 	pkgs, err := packages.Load(cfg, "./"+m.Package)
 	if err != nil {
